@@ -63,7 +63,13 @@ class MiddleAbstract(FunctionContract):
     def __init__(self, target):
         self.target = target
 
-    def requires(self, xi=None, xip=None, **kw):
+    def requires(self, xi=None, xip=None, self_=None, **kw):
+        # MID(x, y) is the grid's cell boundary in the state the grid has BEFORE it is refined: a grid's `middle` may read
+        # the grid (CTMCGridProbabilityStep.middle reads self.h), so every call must see the un-refined step h
+        from pyvc import ctx
+        h0 = ctx.PATH.ghost.get("h0") if ctx.PATH is not None else None
+        if self_ is not None and h0 is not None and "h" in getattr(self_, "fields", {}):
+            return And(xi < xip, self_.fields["h"] == h0)
         return xi < xip
 
     def ensures(self, result, xi=None, xip=None, **kw):
@@ -497,9 +503,10 @@ class GridsBattery:
                         old = ax.copy()
                         for _ in range(2):
                             prev, po, ph = g.axes[0].copy(), g.origin_coordinate.value, g.h
+                            # the cell boundaries the grid itself uses, taken BEFORE refining
+                            mids = np.array([g.middle(float(a), float(b)) for a, b in zip(prev, prev[1:])])
                             g.refine()
                             new = g.axes[0]
-                            mids = np.array([g.middle(float(a), float(b)) for a, b in zip(prev, prev[1:])]) if cname != "probability-step" else new[1::2]
                             ok = ok and len(new) == 2 * len(prev) - 1 and np.allclose(new[::2], prev, rtol=0, atol=0) and np.all(np.diff(new) > 0) \
                                 and g.origin_coordinate.value == 2 * po and g.h == ph / 2 and np.allclose(new[1::2], mids) \
                                 and g.truncations[0] == (old[0], old[-1])
